@@ -210,6 +210,13 @@ def build(tier, repo):
     nv = cstate.hidden_state_rule(r6, cs)
     chk.note_analysed("c_file_scope_and_static_variables", nv)
     r6.require(6)
+    from .. import solver_rules as sr5
+    r7 = chk.rule("C09-R7", "the validation of every option dominates every returned result (early exits included)",
+                  "an invalid option value raises ValueError whatever path the solver takes")
+    chk.note_analysed("option_validation_vs_returns", sr5.validation_dominates_returns_rule(
+        r7, w, [("coneprog", "conelp"), ("coneprog", "coneqp"), ("cvxprog", "cpl")],
+        ["maxiters", "reltol", "abstol", "feastol", "refinement", "show_progress", "kktreg"]))
+    r7.require(30)
     return chk
 
 
